@@ -126,6 +126,10 @@ pub fn transport(capture: &Capture, fragment_size: usize) -> RtpsTransportPartic
 }
 
 pub fn mask_from_bits(bits: u16) -> StatusMask {
+    if bits == 0 {
+        // loop-free for the common "no listener status" case (keeps harness unwind bounds small)
+        return StatusMask::default();
+    }
     const ALL: [StatusKind; 13] = [
         StatusKind::InconsistentTopic,
         StatusKind::OfferedDeadlineMissed,
@@ -158,3 +162,105 @@ pub fn participant(capture: &Capture, domain_id: i32) -> DcpsDomainParticipant {
         core::time::Duration::from_secs(5),
     )
 }
+
+
+/// Stub for `<TypeInformation as From<DynamicType>>::from` (computes MD5 hashes of the XTypes-serialized
+/// minimal/complete type objects through DynamicData — not encodable, see DESIGN.md section 2). Every
+/// `TopicEntity::new` calls it. Use on harnesses that create topics:
+///   #[kani::stub(<crate::xtypes::type_object::TypeInformation as core::convert::From<crate::xtypes::dynamic_type::DynamicType<'static>>>::from, super::support_participant::type_information_stub)]
+/// The returned value (TkNone identifiers) is only stored in `TopicEntity::type_information` and sent in
+/// discovery announcements; a claim that depends on the type information value must not use this stub.
+pub fn type_information_stub<'a>(
+    _value: crate::xtypes::dynamic_type::DynamicType<'a>,
+) -> crate::xtypes::type_object::TypeInformation
+where
+    'a: 'a,
+{
+    use crate::xtypes::type_object::{TypeIdentifier, TypeIdentifierWithDependencies, TypeIdentifierWithSize, TypeInformation};
+    let w = || TypeIdentifierWithDependencies {
+        typeid_with_size: TypeIdentifierWithSize { type_id: TypeIdentifier::TkNone, typeobject_serialized_size: 0 },
+        dependent_typeid_count: 0,
+        dependent_typeids: Vec::new(),
+    };
+    TypeInformation { minimal: w(), complete: w() }
+}
+
+
+/// `.expect()` / `.unwrap()` on a `Result` whose `Err` is reachable as far as symbolic execution can tell
+/// drags `core::fmt` Debug formatting of `DdsError` (Strings, PadAdapter, memchr loops) into the model —
+/// measured: c35_topic_handle >900 s with `.expect`, see HARNESS_GUIDE. `must_ok!(result, "literal")` fails
+/// the proof with a static message instead and formats nothing (kani::assert needs a string literal, hence
+/// a macro). Use as `sp::must_ok!(p.create_topic(..), "C35: topic creation must succeed")`.
+macro_rules! must_ok {
+    ($r:expr, $msg:literal) => {
+        match $r {
+            Ok(v) => v,
+            Err(_) => {
+                kani::assert(false, $msg);
+                kani::assume(false);
+                loop {}
+            }
+        }
+    };
+}
+pub(crate) use must_ok;
+
+/// Same for `Option`.
+macro_rules! must_some {
+    ($r:expr, $msg:literal) => {
+        match $r {
+            Some(v) => v,
+            None => {
+                kani::assert(false, $msg);
+                kani::assume(false);
+                loop {}
+            }
+        }
+    };
+}
+pub(crate) use must_some;
+
+/// Stub for `alloc::fmt::format` (what `format!` expands to): error paths such as
+/// `DdsError::PreconditionNotMet(format!(..))` build their messages with it, and string formatting
+/// (memchr, PadAdapter, integer printing loops) dominates symbolic execution. The message text is in no claim.
+///   #[kani::stub(alloc::fmt::format, super::support_participant::fmt_format_stub)]
+pub fn fmt_format_stub(_args: core::fmt::Arguments<'_>) -> String {
+    String::new()
+}
+
+/// Stub for `<TopicKind as From<&DynamicType>>::from` (recursive walk over the member list looking for key
+/// members). The `&'static DynamicType` is read back through heap-stored `TopicEntity`s, so CBMC cannot
+/// constant-fold it and unrolls the recursion to the unwind bound (measured: one create_data_writer > 900 s).
+/// Returns what the real function returns for the KEYLESS type every participant harness uses
+/// (`<infrastructure::time::Duration as Type>::TYPE`: two primitive members, no key) — only valid with that type.
+///   #[kani::stub(<crate::transport::types::TopicKind as core::convert::From<&crate::xtypes::dynamic_type::DynamicType<'static>>>::from, super::support_participant::topic_kind_nokey_stub)]
+pub fn topic_kind_nokey_stub<'r, 'a>(_value: &'r crate::xtypes::dynamic_type::DynamicType<'a>) -> crate::transport::types::TopicKind
+where
+    'a: 'a,
+    'r: 'r,
+{
+    crate::transport::types::TopicKind::NoKey
+}
+
+/// No-op stubs for the SEDP announcement of a new/changed local entity (`announce_data_writer`,
+/// `announce_data_reader`, `announce_topic`): they encode DiscoveredWriter/Reader/TopicData through
+/// DynamicData (not encodable). `create_data_writer` etc. reach them only when the parent is enabled, but the
+/// `enabled` flag is read back from a heap-stored entity and symbolic execution cannot discharge the branch,
+/// so without the stub the DynamicData code is unrolled anyway (measured: one create_data_writer > 600 s).
+/// A harness using them states: "the discovery announcement of local entities is cut out".
+///   #[kani::stub(crate::dcps::dcps_domain_participant::participant_entity::DcpsDomainParticipant::announce_data_writer, super::support_participant::announce_data_writer_stub)]
+pub fn announce_data_writer_stub<R: DdsRuntime>(
+    _p: &mut DcpsDomainParticipant,
+    _publisher_handle: &crate::infrastructure::instance::InstanceHandle,
+    _data_writer_handle: &crate::infrastructure::instance::InstanceHandle,
+    _runtime: &R,
+) {
+}
+pub fn announce_data_reader_stub<R: DdsRuntime>(
+    _p: &mut DcpsDomainParticipant,
+    _subscriber_handle: &crate::infrastructure::instance::InstanceHandle,
+    _data_reader_handle: &crate::infrastructure::instance::InstanceHandle,
+    _runtime: &R,
+) {
+}
+pub fn announce_topic_stub<R: DdsRuntime>(_p: &mut DcpsDomainParticipant, _topic_name: String, _runtime: &R) {}
